@@ -176,6 +176,17 @@ func (historyEngine) Gen(r *Rand, tier string) any {
 			avail = append(avail, id)
 		}
 		histFaults := func(r *Rand, n int) []FaultSpec { return histFaultsFrom(r, n, avail) }
+		// a structural overflow: recursion of known depth whose levels push a
+		// mix of frame kinds, under a physical limit that lands the refused
+		// push on any of them (sometimes contained by a handler)
+		if len(op.Forms) > 0 && r.Chance(1, 8) {
+			depth := r.Range(2, 9)
+			sp := structProgram(r.Fork(), "phys", depth, r.Bool())
+			op.Forms = append(op.Forms, sp...)
+			op.MaxPhys = r.Range(1, depth*4+6)
+			c.Ops = append(c.Ops, op)
+			continue
+		}
 		// fault plan
 		switch r.Pick([]int{30, 14, 14, 18, 8, 6, 6, 4}) {
 		case 0: // none
